@@ -300,7 +300,10 @@ def bounded(chk):
         for cfg in (("single_pass", None, False), ("single_pass", "by_label", False), ("dynamic", None, False), ("dynamic", "by_label", False), ("replacement", None, False)):
             items.append({"npos": 130, "nneg": 150, "ep": 40, "en": 0, "sc": "pos", "ec": "pos", "cfg": cfg, "seed": chk.seed * 100 + seed, "reps": 150, "stat": True})
             items.append({"npos": 150, "nneg": 120, "ep": 0, "en": 0, "sc": "neg", "ec": "pos", "cfg": cfg, "seed": chk.seed * 100 + seed, "reps": 150, "stat": True})
-    chk.bounded["bound"] = "sources with 1..6 scores per class (all built-in configurations reachable through 'dynamic', replacement, proportion; ties on odd seeds) x 60 samples each; sources with 120..150 scores per class x 150 samples for single_pass / dynamic / replacement with z-tests (|z| < 6.5, false-alarm rate < 1e-9 per test) on mean multiplicity and class sizes"
+        # below the dynamic switch by scored samples, above it once easy samples are counted: still replacement sampling
+        for cfg in (("dynamic", None, False), ("dynamic", "by_label", False)):
+            items.append({"npos": 60, "nneg": 70, "ep": 80, "en": 60, "sc": "pos", "ec": "neg", "cfg": cfg, "seed": chk.seed * 100 + seed, "reps": 40})
+    chk.bounded["bound"] = "60 / 70 scored + 80 / 60 easy samples under 'dynamic' (the switch counts scored samples only); sources with 1..6 scores per class (all built-in configurations reachable through 'dynamic', replacement, proportion; ties on odd seeds) x 60 samples each; sources with 120..150 scores per class x 150 samples for single_pass / dynamic / replacement with z-tests (|z| < 6.5, false-alarm rate < 1e-9 per test) on mean multiplicity and class sizes"
     chk.bounded["rule"] = "seeded; evaluations counts drawn samples, distinct_nontrivial counts (source, configuration, seed) cases"
     run_bounded(chk, items, eval_items)
     chk.samples.append({"bounded-case": items[3]})
